@@ -7,7 +7,8 @@
    ContentDisposition::from_raw + the Content-Length parse of InnerField::new + the nested
    multipart test; only the field name and the Content-Length are used from its answer.
 
-   [o24 o7] select the original (true) or repaired (false) scanner, see Scan.v. *)
+   [o24 o7 o25] select the original (true) or repaired (false) code at the three repaired
+   places, see Scan.v and Buffer.v. *)
 From AV Require Import Lib.Base.
 From AV Require Import Multipart.Buffer.
 From AV Require Import Multipart.Scan.
@@ -47,7 +48,7 @@ Definition DD : bytes := [DASH; DASH].
 
 Section Parser.
 Variable hdr : bytes -> hres.
-Variables o24 o7 : bool.
+Variables o24 o7 o25 : bool.
 
 (* InnerField::poll *)
 Definition field_stage2 (f : ifield) (p : pb) : poll item * ifield * pb :=
@@ -192,7 +193,7 @@ Definition inner_poll (m : mp) : poll mitem * mp :=
 (* Multipart::poll_next (the Field handle has been dropped or finished: safety.current()).
    Result: poll result, [woken] (meaningful for Pending), new state. *)
 Definition mp_poll_next (m : mp) : poll mitem * bool * mp :=
-  match poll_stream (m_pb m) with
+  match poll_stream o25 (m_pb m) with
   | Err e => (Ready (MErr e), false, m)
   | Ok (p1, w) =>
       let '(r, m1) := inner_poll (mkMp p1 (m_state m) (m_item m) (m_bnd m)) in (r, w, m1)
@@ -205,7 +206,7 @@ Definition field_poll_next (m : mp) : poll item * bool * mp :=
   | Some f =>
       if negb (f_present f) then (Ready (IErr EPanic), false, m)   (* expect("Field should not be polled after completion") *)
       else
-        match poll_stream (m_pb m) with
+        match poll_stream o25 (m_pb m) with
         | Err e => (Ready (IErr e), false, m)
         | Ok (p1, w) =>
             let '(r, f1, p2) := field_poll (m_bnd m) f p1 in
